@@ -2,7 +2,7 @@
    All statements are over an arbitrary commutative ring (A, zero, one, add, mul, sub, opp) and
    hold for any number of nodes and branches, parallel branches and self loops included.
    The model (Model.v) is tied to /repo by exact correspondences evaluated inside Coq on every run. *)
-From Coq Require Import ZArith List Bool Arith Ring.
+From Coq Require Import ZArith List Bool Arith Ring Lia.
 From PP Require Import C01.Model C01.Proofs C01.Corr.
 Import ListNotations.
 
@@ -95,7 +95,7 @@ Qed.
 Example example_solves : solves 0%Z 1%Z Z.add Z.mul Z.sub Z.opp ex_nodes ex_branches ex_x.
 Proof.
   intros r Hr. change (dim ex_nodes ex_branches) with 14 in Hr.
-  do 14 (destruct r as [|r]; [vm_compute; reflexivity|]). exfalso. repeat apply Nat.succ_lt_mono in Hr. inversion Hr.
+  do 14 (destruct r as [|r]; [vm_compute; reflexivity|]). lia.
 Qed.
 
 (* the conclusion of theorem 2 on the example (alpha = 1): exact balance at the non-slack nodes *)
